@@ -216,6 +216,58 @@ def t_result_type(ctx):
     ctx.rec('K', order=''.join(str(i) for i in order))
 
 
+def t_views_after_run(ctx):
+    """Three handlers with symbolic durations on a serial / parallel bus return a value each (one returns a dict, one a list when
+    the flat accessors are exercised); after completion every accessor must present the results in handler (registration) order,
+    repeated calls must agree, and an accessor must not modify the recorded results."""
+    par = ctx.cfg['par']
+    kind = ctx.cfg['kind']            # 'scalar' | 'dict' | 'list'
+    ds = [ctx.real(f'd{i}', 0, Exact('3/10')) for i in range(3)]
+    ctx.new_loop(horizon=5)
+    bus = ctx.bus('A', parallel_handlers=par)
+    vals = {'scalar': ['v0', 'v1', 'v2'], 'dict': [{'a': 0}, {'b': 1}, {'c': 2}], 'list': [[0], [1, 11], [2]]}[kind]
+    for i in range(3):
+        async def body(h, ev, i=i):
+            await h.sleep(ds[i])
+            return vals[i]
+        ctx.on(bus, P, f'h{i}', body)
+    out = {}
+
+    async def main():
+        m = ctx.main
+        e = m.dispatch(bus, ctx.ev(P, 'P1', event_timeout=30.0))
+        await m.wait(e)
+        before = [(r.handler_name.rsplit('.', 1)[-1], repr(r.result)) for r in e.event_results.values()]
+        out['first'] = await e.event_result()
+        out['list'] = await e.event_results_list()
+        out['by_name'] = await e.event_results_by_handler_name()
+        out['by_id'] = list((await e.event_results_by_handler_id()).values())
+        if kind == 'dict':
+            out['flat1'] = await e.event_results_flat_dict()
+            out['flat2'] = await e.event_results_flat_dict()
+        if kind == 'list':
+            out['flatl1'] = await e.event_results_flat_list()
+            out['flatl2'] = await e.event_results_flat_list()
+        out['list2'] = await e.event_results_list()
+        after = [(r.handler_name.rsplit('.', 1)[-1], repr(r.result)) for r in e.event_results.values()]
+        out['before'], out['after'] = before, after
+        await bus.wait_until_idle()
+
+    fin = ctx.run(main())
+    ctx.check('C12.views_terminate', bool(fin))
+    if not fin:
+        return
+    ctx.check('C12.view_order', out['first'] == vals[0] and out['list'] == vals and list(out['by_name'].values()) == vals
+              and [k.rsplit('.', 1)[-1] for k in out['by_name']] == ['h0', 'h1', 'h2'] and out['by_id'] == vals, got=repr(out['list'])[:120])
+    ctx.check('C12.views_pure', out['before'] == out['after'] and out['list2'] == vals, before=str(out['before'])[:150], after=str(out['after'])[:150])
+    if kind == 'dict':
+        ctx.check('C12.view.event_results_flat_dict', out['flat1'] == {'a': 0, 'b': 1, 'c': 2} == out['flat2'] and list(out['flat1']) == ['a', 'b', 'c'], got=repr(out['flat1']))
+    if kind == 'list':
+        ctx.check('C12.view.event_results_flat_list', out['flatl1'] == [0, 1, 11, 2] == out['flatl2'], got=repr(out['flatl1']))
+    if par:
+        ctx.witness('parallel run')
+
+
 # =========================================================================== accessors
 KINDS_FULL = ('none', 'int0', 'int7', 'dictA', 'dictB', 'dictAB', 'dictE', 'list', 'listE', 'event', 'errValue', 'errCancelled', 'retExc')
 KINDS_SMALL = ('none', 'int7', 'dictA', 'dictAB', 'list', 'event', 'errValue', 'retExc')
@@ -380,7 +432,7 @@ def _same(a, b):
     return a == b
 
 
-TEMPLATES = {'k.update': t_update, 'k.update_real': t_update_real, 'k.accessors': t_accessors, 'k.result_type': t_result_type}
+TEMPLATES = {'s1.views_after_run': t_views_after_run, 'k.update': t_update, 'k.update_real': t_update_real, 'k.accessors': t_accessors, 'k.result_type': t_result_type}
 
 
 def jobs(tier):
@@ -391,6 +443,9 @@ def jobs(tier):
     for i in range(len(REAL_CASES)):
         out.append(Job('C12', 'k.update_real', t_update_real, dict(case=i)))
     out.append(Job('C12', 'k.result_type', t_result_type, dict(all_orders=(tier == 'thorough'))))
+    for par in (True, False):
+        for kind in ('scalar', 'dict', 'list'):
+            out.append(Job('C12', 's1.views_after_run', t_views_after_run, dict(par=par, kind=kind)))
     for acc in ACCESSORS:
         if tier == 'quick':
             out.append(Job('C12', 'k.accessors', t_accessors, dict(n=2, accessor=acc, kinds='full', include='table'), witnesses=('value', 'raise:same', 'raise:ValueError')))
